@@ -141,7 +141,7 @@ pub proof fn lemma_prune_step<T>(s: &Sender<T>, q: Seq<T>, value: T, cls: spec_f
 
 
 def build(repo):
-    U = Unit("prune", ["C16"], desc="prunable channel", uses="use std::collections::VecDeque;")
+    U = Unit("prune", ["C16"], desc="prunable channel", uses="use std::collections::VecDeque;", crate_attrs="#![feature(allocator_api)]")
     U.repo = repo
     U.item(F, "enum SelectionFunctionResult", attrs="#[derive(PartialEq, Eq, Structural)]")
     U.raw(PRELUDE, label="prelude prune")
@@ -167,6 +167,57 @@ def build(repo):
          subs=[("(self.filter_predicate)(&value)", "self.filter(&value)   /* R-type */"),
                ("self.shared.send.send_modify($C);", "verif_send_modify(self, value);   /* R-stub: closure verified as prune_step */")],
          spec="    ensures true,\n")
+
+    # ---- Receiver::recv: delivery in arrival order, and the unwrap cannot fail
+    U.raw(r"""
+// ---------------- Receiver::recv ----------------
+pub assume_specification<T, A: core::alloc::Allocator> [VecDeque::<T, A>::is_empty] (d: &VecDeque<T, A>) -> (r: bool)   // A1
+    ensures r == (d@.len() == 0);
+#[verifier::external_body] pub struct Ctx { _p: u8 }
+pub struct Canceled;
+#[verifier::external_body] #[verifier::reject_recursive_types(T)]
+pub struct Receiver<T> { _p: core::marker::PhantomData<T> }          // R-type: Receiver<T> { shared: Arc<Shared<T>>, recv: watch::Receiver<VecDeque<T>> }
+// sync::wait_for(ctx, &mut self.recv, pred): Ok only after the predicate returned true on the channel's value (A4)
+#[verifier::external_body]
+pub async fn wait_for_buf<T, F: Fn(&VecDeque<T>) -> bool>(ctx: &Ctx, r: &mut Receiver<T>, f: F) -> (res: Result<(), Canceled>)
+    requires forall|b: &VecDeque<T>| #[trigger] f.requires((b,)),
+             // the predicate that ends the wait must imply a non-empty buffer
+             forall|b: &VecDeque<T>| #[trigger] f.ensures((b,), true) ==> b@.len() > 0,
+{ unimplemented!() }
+// R-stub: `self.shared.send.send_modify(<recv_pop_closure>)`. Rely (A4, single receiver): the wait ended on a non-empty buffer, since then
+// only senders ran, and a send never empties a queue (lemma_send_nonempty), so the closure (verified below) finds a front element.
+#[verifier::external_body]
+pub fn verif_recv_pop<T>(r: &mut Receiver<T>, value: &mut Option<T>)
+    ensures final(value).is_some()
+{ unimplemented!() }
+// a send never empties the queue: either the new message is appended or a pending message that dominates it survives
+pub proof fn lemma_send_nonempty<T>(s: &Sender<T>, q: Seq<T>, value: T)
+    ensures after_send(s, q, value).len() > 0
+{
+    let p = |x: T| s.sel_spec(x, value) != SelectionFunctionResult::DiscardOld;
+    lemma_keepf(q, p);
+    if dominated(s, q, value) {
+        let i = choose|i: int| 0 <= i < q.len() && s.sel_spec(#[trigger] q[i], value) == SelectionFunctionResult::DiscardNew;
+        assert(p(q[i]));
+        assert(keepf(q, p).contains(q[i]));
+    }
+}
+""", label="prelude recv", canary=True)
+    RECV = "impl<T> Receiver<T> :: fn recv"
+    U.lift_closure(F, RECV, "|buf| value", "recv_pop_closure", "<T>(buf: &mut VecDeque<T>, value: &mut Option<T>)",
+                   subs=[("value = buf.", "*value = buf.   /* R-capture: captured by mutable reference */")],
+                   spec="""
+    ensures
+        // the OLDEST retained message is delivered and only it leaves the queue: retained messages are received in arrival order
+        old(buf)@.len() > 0 ==> *final(value) == Some(old(buf)@[0]) && final(buf)@ == old(buf)@.subrange(1, old(buf)@.len() as int),
+        old(buf)@.len() == 0 ==> final(value).is_none() && final(buf)@ == old(buf)@,
+""")
+    U.fn(F, RECV, wrap="impl<T> Receiver<T>", ret="r",
+         header_subs=[("ctx::Ctx", "Ctx"), ("ctx::OrCanceled<T>", "Result<T, Canceled>")],
+         subs=[("sync::wait_for(ctx, &mut self.recv, |buf| $E).await?;",
+                "wait_for_buf(ctx, self, |buf: &VecDeque<T>| -> (b: bool) ensures b ==> buf@.len() > 0 { $E }).await?;   /* W-closure */"),
+               ("self.shared.send.send_modify($C);", "verif_recv_pop(self, &mut value);   /* R-stub: closure verified as recv_pop_closure */")],
+         spec="    ensures true,      // panic-freedom: the `unwrap()` of the popped value is a proof obligation\n")
     U.assume("A1: VecDeque::retain visits each element once in order and keeps those for which the closure returns true; "
              "the boxed selection function / filter predicate are deterministic functions")
     U.assume("A4: send_modify runs the closure atomically under the watch channel's lock; concurrent senders are serialised by it")
